@@ -58,9 +58,9 @@ cdef double complex cf_z_calc(
         z = \
             (x_squared                             / l2_3) + \
             (x_squared**2                          / (l2_3**2 * l2_5)) + \
-            (x_squared**4 * 2.                     / (l2_3**3 * l2_5 * l2_7)) + \
-            (x_squared**6 * (27. + 10. * degree_l) / (l2_3**4 * l2_5**2 * l2_7 * l2_9)) + \
-            (x_squared**8 * (90. + 28. * degree_l) / (l2_3**5 * l2_5**2 * l2_7 * l2_9 * l2_11))
+            (x_squared**3 * 2.                     / (l2_3**3 * l2_5 * l2_7)) + \
+            (x_squared**4 * (27. + 10. * degree_l) / (l2_3**4 * l2_5**2 * l2_7 * l2_9)) + \
+            (x_squared**5 * (90. + 28. * degree_l) / (l2_3**5 * l2_5**2 * l2_7 * l2_9 * l2_11))
     
     return z
 
